@@ -22,6 +22,7 @@ CONSTANTS MinSec, MaxSec, \* offers have MinSec..MaxSec sections
           Trickies,      \* subset of BOOLEAN: values containing ':' '=' ';' (msid ssrc, IPv6 candidate, unknown attribute)
           Blanks,        \* subset of BOOLEAN: leading blanks in values, trailing blanks on lines
           Eols,          \* subset of {"crlf", "lf"}
+          SetupLevels,   \* subset of {"media", "session"}: a=setup / a=fingerprint per m= section or once at session level
           Extras,        \* subset of {"none","sip","browser"}: extra lines a real peer sends (bandwidth, ptime,
                          \* msid, ssrc-group, candidates ...) - they matter for the parse/print round trip
           Kinds,         \* subset of {"audio","video","application","image"}
@@ -42,7 +43,7 @@ VARIABLES secs, n, desc, cfg, form, k, rnd
 vars == <<secs, n, desc, cfg, form, k, rnd>>
 
 Forms == [sname : SNames, ouser : OUsers, sess : SessOpts, flags : FlagAttrs, tricky : Trickies, blanks : Blanks,
-          eol : Eols]
+          eol : Eols, setuplvl : SetupLevels]
 
 (* A small deterministic generator inside the model (two LCGs, products stay below 2^31), so that the   *)
 (* sample depends only on Seed: TLC's RandomElement is not reproducible from -seed in model-checking mode. *)
@@ -126,10 +127,11 @@ Init ==
                  f5 == NextR(f4)
                  f6 == NextR(f5)
                  f7 == NextR(f6)
+                 f8 == NextR(f7)
              IN /\ form = [sname |-> Pick(SNames, f1), ouser |-> Pick(OUsers, f2), sess |-> Pick(SessOpts, f3),
                            flags |-> Pick(FlagAttrs, f4), tricky |-> Pick(Trickies, f5), blanks |-> Pick(Blanks, f6),
-                           eol |-> Pick(Eols, f7)]
-                /\ rnd = NextR(f7)
+                           eol |-> Pick(Eols, f7), setuplvl |-> Pick(SetupLevels, f8)]
+                /\ rnd = NextR(f8)
 
 KindOptions(kind) ==
   IF kind \in RtpKinds
@@ -185,7 +187,11 @@ RichSecs ==
      IF secs[i].kind \in RtpKinds
      THEN [secs[i] EXCEPT !.pts = PtsOf(secs[i].kind, FullPts(secs[i].kind)),
                           !.rtx = RtxOf(secs[i].kind, FullPts(secs[i].kind)),
-                          !.dir = "sendrecv", !.port0 = FALSE]
+                          !.dir = "sendrecv", !.port0 = FALSE,
+                          \* neg = "moved": before, the same URIs were mapped to other ids (5, 6, ...): the re-offer MOVES them
+                          !.ext = IF cfg.neg = "moved"
+                                  THEN [j \in DOMAIN secs[i].ext |-> <<4 + j, secs[i].ext[j][2]>>]
+                                  ELSE secs[i].ext]
      ELSE [secs[i] EXCEPT !.port0 = FALSE]]
 (* neg = "subsequent": the same sections were negotiated before with the full codec menu (re-INVITE narrowing   *)
 (* the codecs / changing directions); neg = "grow": the last section is new in this offer (renegotiation that  *)
@@ -220,6 +226,20 @@ ExtNone == {<<>>}
 VideoPtsSmall == {<<96>>, <<96, 97>>, <<98, 99, 100>>}
 VideoPtsFull  == {<<96>>, <<96, 97>>, <<98>>, <<98, 99>>, <<100>>, <<98, 99, 100>>, <<96, 97, 98, 99>>,
                   <<100, 103>>, <<96, 97, 98, 99, 100, 103>>, <<97, 96, 103, 100>>}
+(* extension-id forms: two-byte ids (15, 16, 255; legal with a=extmap-allow-mixed) on every supported URI, the   *)
+(* largest one-byte id, and sections where the local default id of a URI (rid 1, repaired-rid 2, abs-send-time 3, *)
+(* sdes:mid 4) is taken by ANOTHER URI                                                                            *)
+ExtIdForms == {<<<<16, "sdes-mid">>>>,
+               <<<<15, "abs-send-time">>, <<16, "sdes-mid">>>>,
+               <<<<255, "rid">>, <<15, "repaired-rid">>, <<16, "abs-send-time">>, <<17, "sdes-mid">>>>,
+               <<<<16, "sdes-mid">>, <<4, "toffset">>>>,
+               <<<<3, "toffset">>, <<4, "audio-level">>, <<16, "sdes-mid">>, <<15, "abs-send-time">>>>,
+               <<<<1, "abs-send-time">>, <<2, "sdes-mid">>, <<3, "rid">>, <<4, "repaired-rid">>>>,
+               <<<<14, "sdes-mid">>, <<13, "abs-send-time">>>>,
+               <<<<16, "audio-level">>, <<255, "toffset">>>>,
+               <<<<4, "abs-send-time">>, <<3, "sdes-mid">>, <<2, "rid">>, <<1, "repaired-rid">>>>,
+               <<<<1, "toffset">>, <<2, "audio-level">>, <<3, "toffset2">>, <<4, "audio-level2">>, <<20, "sdes-mid">>,
+                 <<21, "abs-send-time">>, <<22, "rid">>, <<23, "repaired-rid">>>>}
 ExtSmall == {<<>>, <<<<2, "abs-send-time">>, <<3, "sdes-mid">>>>}
 ExtFull  == {<<>>,
              <<<<1, "audio-level">>>>,
